@@ -1148,7 +1148,7 @@ ol, ul { padding-left: 2em; }
         """ Anchors start """
         self.writedata()
         href = attrs[(XLINKNS,"href")].split("|")[0]
-        if href[0] == "#":
+        if href[:1] == "#":
             href = "#" + self.get_anchor(href[1:])
         self.opentag('a', {'href':href})
         self.purgedata()
